@@ -1,9 +1,12 @@
 (* Glue for the generated C18 correspondence shards (R-lemmas discharged by interval).
-   Depends on the MODEL files only (not on the proof files), so the model still evaluates
-   when a proof breaks. *)
+   The definitions and tactics below use the MODEL files only (not the proof files); the one
+   dependency on the proof files is the source-tie library GenC18Tie required further down. *)
 From Coq Require Import Reals List Bool Arith Lra.
 From Interval Require Import Tactic.
 From LV Require Import Analytic.Sigmoid Analytic.Copula Analytic.MvnDegen Analytic.MvnMatrix.
+(* the support library of the source tie (tools/py2gallina_c18.py, harness/lv/c18_tie.py) is required, not imported, so that
+   the targeted build compiles it; nothing in this file uses it *)
+From LV Require Analytic.GenC18Tie.
 Import ListNotations.
 Open Scope R_scope.
 
